@@ -335,7 +335,9 @@ def run_history(case, st):
 def run_imported_text(case, st):
     """Dictionaries obtained by import keep their original value texts (default_raw / value_raw) on export."""
     import canopen
-    for doc in ("eds", "dcf"):
+    for doc, node_id in (("eds", 5), ("dcf", 5), ("eds", None), ("dcf", None)):
+        # (without a node id in force the relative default of object 2 cannot be resolved on import: everything else,
+        # in particular the parameter value of the same entry, must still survive the round trip)
         for style in ({"number": "dec"}, {"number": "hex", "limit_hex": True}, {"number": "HEX", "rel_form": 1}):
             objs = []
             for i, t in enumerate((3, 0x10, 7, 9, 0xA, 8)):
@@ -350,7 +352,7 @@ def run_imported_text(case, st):
                 else:
                     var.update(default=("abs", -1.5), value=("abs", 2.0))
                 objs.append({"kind": "var", "index": 0x2000 + i, "name": var["name"], "vars": [var]})
-            model = {"doc_type": doc, "node_id": 5, "baudrate": 500, "comments": ["a", "b"],
+            model = {"doc_type": doc, "node_id": node_id, "baudrate": 500, "comments": ["a", "b"],
                      "device_info": {"VendorName": "V", "Granularity": 8, "BaudRate_500": 1}, "objects": objs}
             f = io.StringIO(W.write(model, style))
             f.name = "m." + doc
@@ -358,7 +360,7 @@ def run_imported_text(case, st):
             od._verif_relative = True
             st.evaluations += 1
             st.nontrivial_n += 1
-            rc = dict(case, doc=doc, style=style)
+            rc = dict(case, doc=doc, style=style, node_id=node_id)
             try:
                 od2, text = roundtrip(od, doc)
             except Exception as e:  # noqa: BLE001
@@ -366,6 +368,25 @@ def run_imported_text(case, st):
                 continue
             if cmp_od(od, od2, doc, st, rc, "imported-text"):
                 st.outcome("round trip ok")
+            if doc == "dcf":
+                # the usual flow: load a template, set parameter values in the program, save a DCF, load it again
+                f3 = io.StringIO(W.write(dict(model, doc_type="eds"), style))
+                f3.name = "template.eds"
+                od3 = canopen.import_od(f3, node_id)
+                od3._verif_relative = True
+                od3.node_id, od3.bitrate = node_id, 500000
+                for k_, obj in enumerate(od3.values()):
+                    r = type_range(obj.data_type)
+                    if r:
+                        obj.value = r[1] - k_
+                st.evaluations += 1
+                try:
+                    od4, text = roundtrip(od3, "dcf")
+                except Exception as e:  # noqa: BLE001
+                    st.violation(f"C14:dcf:raises:{type(e).__name__}:values-set-in-program", rc, "exported", repr(e)[:150])
+                    continue
+                if cmp_od(od3, od4, "dcf", st, rc, "values-set-in-program"):
+                    st.outcome("round trip ok")
 
 
 def run_case(case, st):
